@@ -521,3 +521,104 @@ pub fn run(seed: u64, n: usize) -> Result<usize, String> {
 	}
 	Ok(count)
 }
+
+
+// ---------------------------------------------------------------- rtskip
+// Derived structs whose fields are DECLARED in an order other than the schema's and whose optional fields are left out by
+// the derived impl when None (`skip_serializing_if`: the impl calls SerializeStruct::skip_field at the field's declared
+// position) -- so the skipped nullable field arrives before, between and after fields that are already buffered / written.
+// Hand-written schema (not the derived one). Expected bytes: those of the struct declared in schema order that presents
+// every field (None as a value), and these decode back to the same value.
+#[derive(Serialize, Deserialize, Debug, PartialEq, Clone)]
+struct ShufFull {
+	a: i32,
+	b: Option<String>,
+	c: i32,
+	d: Option<i64>,
+	e: i64,
+	f: Option<String>,
+}
+const SHUF: &str = r#"{"type":"record","name":"Shuf","fields":[{"name":"a","type":"int"},{"name":"b","type":["null","string"]},{"name":"c","type":"int"},{"name":"d","type":["null","long"]},{"name":"e","type":"long"},{"name":"f","type":["string","null"]}]}"#;
+macro_rules! shuf {
+	($name:ident { $($(#[$m:meta])* $f:ident : $t:ty),* }) => {
+		#[derive(Serialize, Debug)]
+		struct $name { $($(#[$m])* $f: $t),* }
+		impl $name { fn of(x: &ShufFull) -> Self { $name { $($f: x.$f.clone()),* } } }
+	};
+}
+shuf!(ShufA { a: i32, c: i32, #[serde(skip_serializing_if = "Option::is_none")] b: Option<String>, #[serde(skip_serializing_if = "Option::is_none")] d: Option<i64>, e: i64, #[serde(skip_serializing_if = "Option::is_none")] f: Option<String> });
+shuf!(ShufB { c: i32, a: i32, #[serde(skip_serializing_if = "Option::is_none")] b: Option<String>, e: i64, #[serde(skip_serializing_if = "Option::is_none")] d: Option<i64>, #[serde(skip_serializing_if = "Option::is_none")] f: Option<String> });
+shuf!(ShufC { #[serde(skip_serializing_if = "Option::is_none")] f: Option<String>, e: i64, #[serde(skip_serializing_if = "Option::is_none")] d: Option<i64>, c: i32, #[serde(skip_serializing_if = "Option::is_none")] b: Option<String>, a: i32 });
+shuf!(ShufD { #[serde(skip_serializing_if = "Option::is_none")] b: Option<String>, a: i32, #[serde(skip_serializing_if = "Option::is_none")] d: Option<i64>, c: i32, #[serde(skip_serializing_if = "Option::is_none")] f: Option<String>, e: i64 });
+shuf!(ShufE { a: i32, #[serde(skip_serializing_if = "Option::is_none")] b: Option<String>, #[serde(skip_serializing_if = "Option::is_none")] d: Option<i64>, c: i32, e: i64, #[serde(skip_serializing_if = "Option::is_none")] f: Option<String> });
+shuf!(ShufF { c: i32, e: i64, a: i32, #[serde(skip_serializing_if = "Option::is_none")] b: Option<String>, #[serde(skip_serializing_if = "Option::is_none")] f: Option<String>, #[serde(skip_serializing_if = "Option::is_none")] d: Option<i64> });
+shuf!(ShufG { e: i64, c: i32, a: i32, #[serde(skip_serializing_if = "Option::is_none")] b: Option<String>, #[serde(skip_serializing_if = "Option::is_none")] d: Option<i64>, #[serde(skip_serializing_if = "Option::is_none")] f: Option<String> });
+shuf!(ShufH { a: i32, #[serde(skip_serializing_if = "Option::is_none")] b: Option<String>, c: i32, #[serde(skip_serializing_if = "Option::is_none")] d: Option<i64>, e: i64, #[serde(skip_serializing_if = "Option::is_none")] f: Option<String> });
+// the same as a struct variant of an enum (SerializeStructVariant::skip_field), record designated by the variant name
+#[derive(Serialize, Debug)]
+enum ShufEnum {
+	Shuf {
+		a: i32,
+		c: i32,
+		#[serde(skip_serializing_if = "Option::is_none")]
+		b: Option<String>,
+		e: i64,
+		#[serde(skip_serializing_if = "Option::is_none")]
+		d: Option<i64>,
+		#[serde(skip_serializing_if = "Option::is_none")]
+		f: Option<String>,
+	},
+}
+
+/// rtskip SEED N -> number of (value, struct) pairs compared | description of the first difference
+pub fn run_skip(seed: u64, n: usize) -> Result<usize, String> {
+	let mut r = Rng::new(seed ^ 0x5C1F);
+	let schema: serde_avro_fast::Schema = SHUF.parse().map_err(|e| format!("schema Shuf: {e}"))?;
+	let mut count = 0;
+	for i in 0..n.max(8) {
+		// every subset of {b, d, f} left out (the first 8 values), then at random
+		let m = if i < 8 { i as u64 } else { r.below(8) };
+		let v = ShufFull {
+			a: r.i32(),
+			b: if m & 1 != 0 { None } else { Some(r.string()) },
+			c: r.i32(),
+			d: if m & 2 != 0 { None } else { Some(r.i64()) },
+			e: r.i64(),
+			f: if m & 4 != 0 { None } else { Some(r.string()) },
+		};
+		let want = serde_avro_fast::to_datum_vec(&v, &mut serde_avro_fast::ser::SerializerConfig::new(&schema))
+			.map_err(|e| format!("ShufFull: serialize {v:?}: {e}"))?;
+		let back: ShufFull = serde_avro_fast::from_datum_slice(&want, &schema).map_err(|e| format!("ShufFull: from_datum_slice {v:?}: {e}"))?;
+		if back != v {
+			return Err(format!("ShufFull: round trip {v:?} -> {back:?}"));
+		}
+		macro_rules! cmp {
+			($what:expr, $val:expr) => {{
+				let x = $val;
+				// a fresh configuration, and one that has been used (its buffer pools are filled by the first run)
+				let mut cfg = serde_avro_fast::ser::SerializerConfig::new(&schema);
+				for round in 0..2 {
+					match serde_avro_fast::to_datum_vec(&x, &mut cfg) {
+						Err(e) => return Err(format!("{} (fields declared out of schema order, None fields skipped by skip_serializing_if; round {round}): {x:?}: serialize: {e}", $what)),
+						Ok(got) => {
+							if got != want {
+								return Err(format!("{} (fields declared out of schema order, None fields skipped by skip_serializing_if; round {round}): {x:?}: bytes {got:02x?}, the struct in schema order gives {want:02x?}", $what));
+							}
+						}
+					}
+				}
+				count += 1;
+			}};
+		}
+		cmp!("ShufA{a,c,b?,d?,e,f?}", ShufA::of(&v));
+		cmp!("ShufB{c,a,b?,e,d?,f?}", ShufB::of(&v));
+		cmp!("ShufC{f?,e,d?,c,b?,a}", ShufC::of(&v));
+		cmp!("ShufD{b?,a,d?,c,f?,e}", ShufD::of(&v));
+		cmp!("ShufE{a,b?,d?,c,e,f?}", ShufE::of(&v));
+		cmp!("ShufF{c,e,a,b?,f?,d?}", ShufF::of(&v));
+		cmp!("ShufG{e,c,a,b?,d?,f?}", ShufG::of(&v));
+		cmp!("ShufH{a,b?,c,d?,e,f?} (schema order)", ShufH::of(&v));
+		cmp!("enum ShufEnum::Shuf{a,c,b?,e,d?,f?}", ShufEnum::Shuf { a: v.a, c: v.c, b: v.b.clone(), e: v.e, d: v.d, f: v.f.clone() });
+	}
+	Ok(count)
+}
